@@ -71,6 +71,9 @@ fn child(sc_path: &str, out_path: &str) -> i32 {
         None => std::env::remove_var("FLACENC_WORKERS"),
     }
     flacenc::verif_sync::set_parallelism(sc.parallelism);
+    if sc.process_cap > 0 {
+        flacenc::verif_sync::set_capacity_override(model::PROCESS_CAP, sc.process_cap);
+    }
     std::panic::set_hook(Box::new(|info| {
         let msg = if let Some(s) = info.payload().downcast_ref::<&str>() {
             (*s).to_string()
@@ -106,7 +109,7 @@ fn child(sc_path: &str, out_path: &str) -> i32 {
             return 3;
         }
     }
-    let pm = ParModel { w: sc.w_expected, script: sc.script.clone(), process_cap: model::PROCESS_CAP, fill_at_end: sc.fill_at_end, bug: None };
+    let pm = ParModel { w: sc.w_expected, script: sc.script.clone(), process_cap: if sc.process_cap > 0 { sc.process_cap } else { model::PROCESS_CAP }, fill_at_end: sc.fill_at_end, bug: None };
     let stats = Arc::new(Mutex::new(ChildStats::default()));
     let first: Arc<Mutex<Option<(RunResult, Vec<Ev>)>>> = Arc::new(Mutex::new(None));
     let mut builder = loom::model::Builder::new();
@@ -262,6 +265,7 @@ fn mk(name: &str, wcfg: usize, env: Option<&str>, wexp: usize, script: Vec<Read>
         bs: 32,
         preemption_bound: pb,
         fill_at_end: true,
+        process_cap: 0,
     }
 }
 
@@ -290,6 +294,13 @@ fn c05_scenarios(thorough: bool) -> Vec<Scenario> {
     let mut s = mk("cfg_w2_f2_nofill_at_end", 2, None, 2, data(2), 0, false, pb);
     s.fill_at_end = false;
     v.push(s);
+    // hashing queue shrunk to one / two slots (the code's 16 is a tuning constant): the feeder blocks on it
+    let caps: &[(usize, usize, usize)] = if thorough { &[(1, 3, 1), (2, 1, 1), (2, 2, 1), (2, 3, 2), (1, 4, 2)] } else { &[(1, 3, 1), (2, 1, 1)] };
+    for &(w, f, cap) in caps {
+        let mut s = mk(&format!("cap{cap}_cfg_w{w}_f{f}"), w, None, w, data(f), 6, false, pb);
+        s.process_cap = cap;
+        v.push(s);
+    }
     if thorough {
         for w in 1..=2usize {
             for f in 1..=3usize {
